@@ -650,6 +650,15 @@ func wrongAndBad(res *vkit.Result, c comp, propFile string) {
 			"key is only the tail of a longer key": "${property:" + propFile + "#token}",
 			"key occurs only inside a value":       "${property:" + propFile + "#region}",
 		}
+		if _, isStr := f.Want.(string); isStr {
+			// several placeholders in one value: one that cannot be resolved spoils the value
+			// wherever it stands
+			os.Setenv("VERIF_C17_SET", "seven")
+			bads["unset env in front of a set one"] = "${env:VERIF_C17_UNSET}/x_${env:VERIF_C17_SET}"
+			bads["unset env behind a set one"] = "${env:VERIF_C17_SET}/x_${env:VERIF_C17_UNSET}"
+			bads["missing key in front of a set env"] = "${property:" + propFile + "#no_such_key} ${env:VERIF_C17_SET}"
+			bads["unset env between two set ones"] = "${env:VERIF_C17_SET}${env:VERIF_C17_UNSET}${env:VERIF_C17_SET}"
+		}
 		for kind, ph := range bads {
 			section := clone(c.Base).(map[string]any)
 			setPath(section, f.Key, ph)
